@@ -14,12 +14,17 @@ pub fn init() {}
 
 pub fn load_cert(name: &str) -> CertificateDer<'static> {
     let data = std::fs::read(format!("{CERT_DIR}/{name}")).expect("cert file");
-    let c = rustls_pemfile::certs(&mut BufReader::new(&data[..])).next().unwrap().unwrap();
+    let c = rustls_pemfile::certs(&mut BufReader::new(&data[..]))
+        .next()
+        .unwrap()
+        .unwrap();
     c
 }
 pub fn load_key(name: &str) -> PrivateKeyDer<'static> {
     let data = std::fs::read(format!("{CERT_DIR}/{name}")).expect("key file");
-    let k = rustls_pemfile::private_key(&mut BufReader::new(&data[..])).unwrap().unwrap();
+    let k = rustls_pemfile::private_key(&mut BufReader::new(&data[..]))
+        .unwrap()
+        .unwrap();
     k
 }
 
@@ -76,7 +81,12 @@ pub async fn run_case(case: &Case, window: Duration, max: usize) -> Obs {
             let (_tx, mut rx) = t.split();
             observe_dyn(&mut rx, window, max).await
         }
-        Err(e) => Obs { msgs: vec![], end: "err", again: "-", note: format!("connect: {e}") },
+        Err(e) => Obs {
+            msgs: vec![],
+            end: "err",
+            again: "-",
+            note: format!("connect: {e}"),
+        },
     };
     server.abort();
     obs
